@@ -66,7 +66,9 @@ CHECKS["C07"] = dict(
         "length or just before the byte that exceeds the invalid budget; one burst per session; abandon after the search length; "
         "no zero padding once four preamble bytes open the session. Bit level: on a clean header or trailer burst every position that "
         "is not a byte boundary is >= 7 bit errors from the sync word (finite sweep lifted to a theorem), so with a preamble budget <= 6 "
-        "the squelch cannot (re)synchronise off a byte boundary whatever its other state; the bound is tight (7 is reached). The 16 "
+        "the squelch cannot (re)synchronise off a byte boundary whatever its other state; the bound is tight (7 is reached); the squelch is a "
+        "32-symbol delay line whose halves are aligned in every reachable state: the byte handed to the framer is the oldest eight symbols, in "
+        "order, and carrier loss is decided on the power flag of the first symbol of the byte due next. The 16 "
         "half-symbol phases of real audio are exercised by receiver-level runs (correspondence, not theorem).",
    note=RX_NOTE,
    technique="Coq invariant proof over byte streams + exhaustive reduced-alphabet differential correspondence + reference automaton",
